@@ -10,15 +10,11 @@ Local Open Scope Z_scope.
    ------------------------------------------------------------------------------------------------------------ *)
 
 (* the session's last slot write is among the first n writes of the workload *)
-Fixpoint writes_before (P : Z) (ss : list session) (s : session) : option nat :=
-  match ss with
-  | [] => None
-  | x :: r => if s_obj x =? s_obj s then Some O
-              else match writes_before P r s with Some k => Some (nwrites P x + k)%nat | None => None end
-  end.
-
 Definition completed (P : Z) (ss : list session) (n : nat) (s : session) : Prop :=
-  In s ss /\ exists b, writes_before P ss s = Some b /\ (b + nwrites P s <= n)%nat.
+  exists ss1 ss2, ss = ss1 ++ s :: ss2 /\ (length (all_writes P (ss1 ++ [s])) <= n)%nat.
+
+Lemma completed_in : forall P ss n s, completed P ss n s -> In s ss.
+Proof. intros P ss n s (ss1 & ss2 & -> & _). apply in_or_app. right. left. reflexivity. Qed.
 
 (* C16 on the model: whatever is served as a hit after the crash is the complete stream of one session with that
    key whose last write completed before the crash *)
@@ -52,7 +48,7 @@ Lemma crash_consistent_refuted :
   exists N P ops n, ~ crash_consistent N P (sessions_of N P ops) n None.
 Proof.
   exists 8, 4, w_ops, 5%nat. intros H.
-  destruct (H (1, 0) _ overwrite_crash_mixes) as (s & (Hin & _) & _ & Hc).
+  destruct (H (1, 0) _ overwrite_crash_mixes) as (s & Hin & _ & Hc). apply completed_in in Hin.
   vm_compute in Hin. destruct Hin as [<- | [<- | []]]; vm_compute in Hc; discriminate Hc.
 Qed.
 
@@ -68,7 +64,7 @@ Lemma torn_crash_consistent_refuted :
   exists N P ops n t, ~ crash_consistent N P (sessions_of N P ops) n (Some t).
 Proof.
   exists 8, 4, t_ops, 0%nat, 42. intros H.
-  destruct (H (1, 0) _ torn_write_serves_unwritten_bytes) as (s & (Hin & _) & _ & Hc).
+  destruct (H (1, 0) _ torn_write_serves_unwritten_bytes) as (s & Hin & _ & Hc). apply completed_in in Hin.
   vm_compute in Hin. destruct Hin as [<- | []]; vm_compute in Hc; discriminate Hc.
 Qed.
 
@@ -430,3 +426,870 @@ Proof.
 Qed.
 
 End RebuildSteps.
+
+(* ---- 4.6 chains of slot writes and the load-phase invariant ---- *)
+Record chain := mkChain { ch_key : key; ch_T : Z; ch_ws : list wr; ch_m : nat }.
+Definition ch_written (c : chain) : list wr := firstn (ch_m c) (ch_ws c).
+Definition ch_c0 (c : chain) : Z := match ch_ws c with w :: _ => w_slot w | [] => 0 end.
+Definition ch_single (c : chain) : bool := match ch_ws c with [_] => true | _ => false end.
+Definition ch_complete (c : chain) : Prop := ch_m c = length (ch_ws c).
+
+Lemma psz_sum_app : forall a b, psz_sum (a ++ b) = psz_sum a + psz_sum b.
+Proof. unfold psz_sum. induction a as [|w a IH]; intros b; cbn [app fold_right]; [lia| rewrite IH; lia]. Qed.
+
+Lemma nodup_concat_owner : forall A B (g : A -> list B) l a1 a2 x,
+  NoDup (concat (map g l)) -> In a1 l -> In a2 l -> In x (g a1) -> In x (g a2) -> a1 = a2.
+Proof.
+  induction l as [|a l IH]; intros a1 a2 x Hnd H1 H2 Hx1 Hx2; [destruct H1|].
+  cbn [map concat] in Hnd. 
+  assert (Hsplit : NoDup (concat (map g l)) /\ forall y, In y (g a) -> ~ In y (concat (map g l))).
+  { clear - Hnd. induction (g a) as [|b gb IHg]; cbn [app] in Hnd; [split; [exact Hnd| intros ? []]|].
+    inversion Hnd as [|? ? Hn Hd]; subst. destruct (IHg Hd) as [A1 A2]. split; [exact A1|].
+    intros y [<- | Hy]; [intros Hc; apply Hn, in_or_app; right; exact Hc| apply A2, Hy]. }
+  destruct Hsplit as [Hnd' Hdis].
+  assert (Hin_concat : forall a', In a' l -> In x (g a') -> In x (concat (map g l))).
+  { intros a' Ha' Hx'. apply in_concat. exists (g a'). split; [apply in_map, Ha'| exact Hx']. }
+  destruct H1 as [<- | H1]; destruct H2 as [<- | H2].
+  - reflexivity.
+  - exfalso. apply (Hdis x Hx1). apply (Hin_concat a2); assumption.
+  - exfalso. apply (Hdis x Hx2). apply (Hin_concat a1); assumption.
+  - apply (IH a1 a2 x); assumption.
+Qed.
+
+Lemma nodup_map_inj : forall A B (g : A -> B) l a b, NoDup (map g l) -> In a l -> In b l -> g a = g b -> a = b.
+Proof.
+  induction l as [|x l IH]; intros a b Hnd Ha Hb Hg; [destruct Ha|].
+  cbn [map] in Hnd. inversion Hnd as [|? ? Hn Hd]; subst.
+  destruct Ha as [<- | Ha]; destruct Hb as [<- | Hb]; try reflexivity.
+  - exfalso. apply Hn. rewrite Hg. apply in_map, Hb.
+  - exfalso. apply Hn. rewrite <- Hg. apply in_map, Ha.
+  - apply IH; assumption.
+Qed.
+
+Lemma nodup_app_l : forall A (a b : list A), NoDup (a ++ b) -> NoDup a.
+Proof.
+  induction a as [|x a IH]; intros b H; [constructor|]. cbn [app] in H. inversion H as [|? ? Hn Hd]; subst.
+  constructor; [intros Hc; apply Hn, in_or_app; left; exact Hc| apply (IH b), Hd].
+Qed.
+
+Lemma in_firstn : forall A n (l : list A) x, In x (firstn n l) -> In x l.
+Proof. intros A n l x H. rewrite <- (firstn_skipn n l). apply in_or_app. left. exact H. Qed.
+
+Lemma key_eqb_refl : forall k, key_eqb k k = true.
+Proof. intros [a b]. unfold key_eqb. cbn [fst snd]. now rewrite !Z.eqb_refl. Qed.
+
+Section Recovery.
+Variables (N P : Z) (oi : Z -> option oinfo) (d : disk).
+Hypothesis HN : 0 < N.
+
+Definition ch_f (c : chain) : Z := fileno_of N (ch_key c).
+
+Record good_chain (c : chain) : Prop := {
+  gc_nonempty : ch_ws c <> [];
+  gc_m : (ch_m c <= length (ch_ws c))%nat;
+  gc_hdr : forall w, In w (ch_ws c) ->
+     h_key (w_hdr w) = ch_key c /\ h_first (w_hdr w) = ch_c0 c /\ 0 < h_ver (w_hdr w) /\
+     0 < h_psz (w_hdr w) <= P /\ 0 <= w_slot w < N /\ -1 <= h_next (w_hdr w) < N;
+  gc_linked : linked_to (ch_ws c) (-1);
+  gc_esz : forall w r, ch_ws c = w :: r ->
+     h_esz (w_hdr w) = match r with [] => ch_T c | _ :: _ => 0 end /\ (r = [] -> h_psz (w_hdr w) = ch_T c);
+  gc_meta : forall w r, ch_ws c = w :: r -> meta_ok P oi w;
+  gc_nodup : NoDup (map w_slot (ch_ws c));
+  gc_data : forall w, In w (ch_ws c) -> h_psz (w_hdr w) = Z.of_nat (length (w_data w)) }.
+
+Variable cs : list chain.
+Hypothesis Hgood : forall c, In c cs -> good_chain c.
+Hypothesis Hslots : NoDup (concat (map (fun c => map w_slot (ch_ws c)) cs)).
+Hypothesis Hfiles : NoDup (map ch_f cs).
+Hypothesis Himg_w : forall c w, In c cs -> In w (ch_written c) -> d (w_slot w) = cell_of w.
+Hypothesis Himg_0 : forall x, (forall c w, In c cs -> In w (ch_written c) -> w_slot w <> x) -> d x = cell0.
+
+Lemma owner_unique : forall c1 c2 w1 w2,
+  In c1 cs -> In c2 cs -> In w1 (ch_ws c1) -> In w2 (ch_ws c2) -> w_slot w1 = w_slot w2 -> c1 = c2 /\ w1 = w2.
+Proof.
+  intros c1 c2 w1 w2 H1 H2 Hw1 Hw2 Hs.
+  assert (c1 = c2).
+  { apply (nodup_concat_owner _ _ (fun c => map w_slot (ch_ws c)) cs c1 c2 (w_slot w1) Hslots H1 H2).
+    - apply in_map, Hw1.
+    - rewrite Hs. apply in_map, Hw2. }
+  subst c2. split; [reflexivity|].
+  apply (nodup_map_inj _ _ w_slot (ch_ws c1)); auto. apply (gc_nodup c1 (Hgood c1 H1)).
+Qed.
+
+Lemma files_distinct : forall c1 c2, In c1 cs -> In c2 cs -> ch_f c1 = ch_f c2 -> c1 = c2.
+Proof. intros c1 c2 H1 H2 Hf. apply (nodup_map_inj _ _ ch_f cs); auto. Qed.
+
+Lemma written_in : forall c w, In w (ch_written c) -> In w (ch_ws c).
+Proof. intros c w. apply in_firstn. Qed.
+
+Lemma written_head : forall c w, In c cs -> In w (ch_written c) ->
+  exists w0 r, ch_ws c = w0 :: r /\ In w0 (ch_written c) /\ ch_c0 c = w_slot w0.
+Proof.
+  intros c w Hc Hw. unfold ch_written, ch_c0 in *. destruct (ch_ws c) as [|w0 r] eqn:E.
+  - rewrite firstn_nil in Hw. destruct Hw.
+  - exists w0, r. split; [reflexivity|]. split; [|reflexivity].
+    destruct (ch_m c); [destruct Hw| cbn [firstn]; left; reflexivity].
+Qed.
+
+(* scanned part of a chain at scan position p *)
+Definition Scn (c : chain) (p : Z) (w : wr) : Prop := In w (ch_written c) /\ w_slot w < p.
+Definition ssum (c : chain) (p : Z) : Z := psz_sum (filter (fun w => w_slot w <? p) (ch_written c)).
+
+Lemma ssum_same : forall c p, (forall w, In w (ch_written c) -> w_slot w <> p) -> ssum c (p + 1) = ssum c p.
+Proof.
+  intros c p H. unfold ssum. f_equal. apply filter_ext_in. intros w Hw. specialize (H w Hw). lia.
+Qed.
+
+Lemma ssum_step : forall c p w1, NoDup (map w_slot (ch_written c)) -> In w1 (ch_written c) -> w_slot w1 = p ->
+  ssum c (p + 1) = ssum c p + h_psz (w_hdr w1).
+Proof.
+  intros c p w1. unfold ssum. induction (ch_written c) as [|w l IH]; intros Hnd Hin Hs; [destruct Hin|].
+  cbn [map] in Hnd. inversion Hnd as [|? ? Hn Hd]; subst. cbn [filter].
+  destruct Hin as [-> | Hin].
+  - assert (w_slot w1 <? w_slot w1 + 1 = true) as -> by lia. assert (w_slot w1 <? w_slot w1 = false) as -> by lia.
+    cbn [psz_sum fold_right]. fold (psz_sum (filter (fun w => w_slot w <? w_slot w1 + 1) l)).
+    assert (filter (fun w => w_slot w <? w_slot w1 + 1) l = filter (fun w => w_slot w <? w_slot w1) l) as ->.
+    { apply filter_ext_in. intros w Hw. assert (w_slot w <> w_slot w1) by (intros E; apply Hn; rewrite <- E; apply in_map, Hw). lia. }
+    unfold psz_sum. lia.
+  - assert (w_slot w <> w_slot w1) by (intros E; apply Hn; rewrite E; apply in_map, Hin).
+    specialize (IH Hd Hin eq_refl).
+    destruct (w_slot w <? w_slot w1 + 1) eqn:E1; destruct (w_slot w <? w_slot w1) eqn:E2; try lia;
+      cbn [psz_sum fold_right] in *; unfold psz_sum in *; lia.
+Qed.
+
+Lemma written_nodup : forall c, In c cs -> NoDup (map w_slot (ch_written c)).
+Proof.
+  intros c Hc. unfold ch_written. pose proof (gc_nodup c (Hgood c Hc)) as H.
+  rewrite <- (firstn_skipn (ch_m c) (ch_ws c)) in H. rewrite map_app in H. apply nodup_app_l in H. exact H.
+Qed.
+
+Definition slot_ok (st : rst) (c : chain) (p : Z) (w : wr) : Prop :=
+  exists mo, r_sl st (w_slot w) = mkLslot mo true false false (h_psz (w_hdr w)) (h_next (w_hdr w)) /\
+             (mo = -1 \/ exists w', Scn c p w' /\ w_slot w' = mo).
+
+Definition linv (c : chain) (p : Z) (st : rst) : Prop :=
+  ((forall w, In w (ch_written c) -> p <= w_slot w) /\ r_ent st (ch_f c) = lent0) \/
+  ((exists w, Scn c p w) /\ ch_single c = true /\
+     r_ent st (ch_f c) = mkLent LeLoaded true (ch_T c) (ch_key c) (ch_c0 c) (ch_T c) /\
+     r_sl st (ch_c0 c) = mkLslot (-1) true true false (ch_T c) (-1)) \/
+  ((exists w, Scn c p w) /\ ch_single c = false /\ exists start,
+     r_ent st (ch_f c) = mkLent LeLoading (ch_c0 c <? p) (ssum c p) (ch_key c) start 0 /\
+     ((ch_c0 c <? p) = true -> start = ch_c0 c) /\
+     (exists w, Scn c p w /\ w_slot w = start) /\
+     (forall w, Scn c p w -> slot_ok st c p w)).
+
+Definition LInv (p : Z) (st : rst) : Prop :=
+  (forall c, In c cs -> linv c p st) /\
+  (forall f, (forall c, In c cs -> ch_f c <> f) -> r_ent st f = lent0) /\
+  (forall x, p <= x -> r_sl st x = lslot0).
+
+(* nothing of chain c lives in slot p: its invariant carries over when its entry and slots are untouched *)
+Lemma linv_frame : forall c p st st', In c cs -> linv c p st ->
+  (forall w, In w (ch_written c) -> w_slot w <> p) ->
+  r_ent st' (ch_f c) = r_ent st (ch_f c) ->
+  (forall w, In w (ch_written c) -> r_sl st' (w_slot w) = r_sl st (w_slot w)) ->
+  linv c (p + 1) st'.
+Proof.
+  intros c p st st' Hc Hinv Hno He Hsl.
+  assert (Hscn : forall w, Scn c (p + 1) w <-> Scn c p w).
+  { intros w. unfold Scn. split; intros [A B]; split; auto; [specialize (Hno w A)|]; lia. }
+  destruct Hinv as [[A B] | [(Hex & Hsg & Hent & Hs0) | (Hex & Hsg & start & Hent & Hst & Hstart & Hok)]].
+  - left. split; [intros w Hw; specialize (A w Hw); specialize (Hno w Hw); lia| now rewrite He].
+  - right; left. destruct Hex as [w Hw]. split; [exists w; apply Hscn, Hw|]. split; [exact Hsg|].
+    split; [now rewrite He|].
+    destruct (written_head c w Hc (proj1 Hw)) as (w0 & r & _ & Hw0 & Hc0). rewrite Hc0, (Hsl w0 Hw0), <- Hc0. exact Hs0.
+  - right; right. destruct Hex as [w Hw]. split; [exists w; apply Hscn, Hw|]. split; [exact Hsg|].
+    destruct (written_head c w Hc (proj1 Hw)) as (w0 & r & _ & Hw0 & Hc0).
+    assert (Hc0p : (ch_c0 c <? p + 1) = (ch_c0 c <? p)). { specialize (Hno w0 Hw0). rewrite Hc0. lia. }
+    exists start. rewrite He, Hc0p, (ssum_same c p Hno). split; [exact Hent|]. split; [exact Hst|].
+    split.
+    + destruct Hstart as (ws & Hws & Hwss). exists ws. split; [apply Hscn, Hws| exact Hwss].
+    + intros w' Hw'. apply Hscn in Hw'. destruct (Hok w' Hw') as (mo & Hmo & Hcl). exists mo.
+      rewrite (Hsl w' (proj1 Hw')). split; [exact Hmo|].
+      destruct Hcl as [-> | (w'' & Hw'' & Hm)]; [left; reflexivity| right; exists w''; split; [apply Hscn, Hw''| exact Hm]].
+Qed.
+
+Lemma dec_owner : forall p,
+  (exists c w, In c cs /\ In w (ch_written c) /\ w_slot w = p) \/
+  (forall c w, In c cs -> In w (ch_written c) -> w_slot w <> p).
+Proof.
+  intros p. destruct (existsb (fun c => existsb (fun w => w_slot w =? p) (ch_written c)) cs) eqn:E.
+  - left. apply existsb_exists in E. destruct E as (c & Hc & E). apply existsb_exists in E. destruct E as (w & Hw & E).
+    exists c, w. repeat split; auto. lia.
+  - right. intros c w Hc Hw Hs.
+    assert (existsb (fun c => existsb (fun w => w_slot w =? p) (ch_written c)) cs = true); [|congruence].
+    apply existsb_exists. exists c. split; [exact Hc|]. apply existsb_exists. exists w. split; [exact Hw| lia].
+Qed.
+
+Lemma ssum_zero : forall c p, (forall w, In w (ch_written c) -> p <= w_slot w) -> ssum c p = 0.
+Proof.
+  intros c p H. unfold ssum. induction (ch_written c) as [|w l IH]; [reflexivity|].
+  cbn [filter]. assert (w_slot w <? p = false) as -> by (specialize (H w (or_introl eq_refl)); lia).
+  apply IH. intros w' Hw'. apply H. right. exact Hw'.
+Qed.
+
+Lemma load_one_empty : forall st p, d p = cell0 -> load_one N P oi d st p = free_slot p st.
+Proof. intros st p H. unfold load_one. rewrite H. reflexivity. Qed.
+
+Lemma load_one_owned : forall st p c w, In c cs -> In w (ch_written c) -> w_slot w = p ->
+  load_one N P oi d st p = use_new_slot N P oi d p p (w_hdr w) st.
+Proof.
+  intros st p c w Hc Hw Hs. unfold load_one. rewrite <- Hs, (Himg_w c w Hc Hw). cbn [cell_of c_hdr].
+  destruct (gc_hdr c (Hgood c Hc) w (written_in c w Hw)) as (_ & _ & Hv & Hp & Hsl & Hn).
+  unfold hdr_empty, hdr_sane.
+  assert (h_psz (w_hdr w) =? 0 = false) as -> by lia. rewrite !andb_false_r.
+  destruct (gc_hdr c (Hgood c Hc) w (written_in c w Hw)) as (_ & Hf & _).
+  assert (Hc0 : 0 <= ch_c0 c < N).
+  { destruct (written_head c w Hc Hw) as (w0 & r & Hws & Hw0 & Hc0). rewrite Hc0.
+    apply (gc_hdr c (Hgood c Hc) w0 (written_in c w0 Hw0)). }
+  rewrite Hf.
+  assert (0 <=? ch_c0 c = true) as -> by lia. assert (ch_c0 c <? N = true) as -> by lia.
+  assert (-1 <=? h_next (w_hdr w) = true) as -> by lia. assert (h_next (w_hdr w) <? N = true) as -> by lia.
+  assert (0 <? h_ver (w_hdr w) = true) as -> by lia. assert (0 <? h_psz (w_hdr w) = true) as -> by lia.
+  assert (h_psz (w_hdr w) <=? P = true) as -> by lia. reflexivity.
+Qed.
+
+Lemma single_only : forall c w w', ch_single c = true -> In w (ch_ws c) -> In w' (ch_ws c) -> w = w'.
+Proof.
+  intros c w w' Hs Hw Hw'. unfold ch_single in Hs. destruct (ch_ws c) as [|a [|b r]]; try discriminate Hs.
+  destruct Hw as [<- | []]; destruct Hw' as [<- | []]; reflexivity.
+Qed.
+
+(* the state and the entry that addSlotToEntry sees when the scan reaches a written slot of chain c1 *)
+Lemma owner_pre : forall p st c1 w1, LInv p st -> In c1 cs -> In w1 (ch_written c1) -> w_slot w1 = p ->
+  exists st0 start,
+    use_new_slot N P oi d p p (w_hdr w1) st = add_slot N P oi d p (ch_f c1) p (w_hdr w1) st0 /\
+    r_ent st0 (ch_f c1) = mkLent LeLoading (ch_c0 c1 <? p) (ssum c1 p) (ch_key c1) start 0 /\
+    (forall f', f' <> ch_f c1 -> r_ent st0 f' = r_ent st f') /\ (forall x, r_sl st0 x = r_sl st x) /\
+    ((ch_c0 c1 <? p) = true -> start = ch_c0 c1) /\
+    (start = -1 \/ exists w, Scn c1 p w /\ w_slot w = start) /\
+    (forall w, Scn c1 p w -> slot_ok st c1 p w) /\
+    ((exists w, Scn c1 p w) -> ch_single c1 = false).
+Proof.
+  intros p st c1 w1 (Hall & _ & _) Hc1 Hw1 Hs1.
+  destruct (gc_hdr c1 (Hgood c1 Hc1) w1 (written_in c1 w1 Hw1)) as (Hk & _).
+  unfold use_new_slot. rewrite Hk. fold (ch_f c1).
+  destruct (Hall c1 Hc1) as [[A B] | [(Hex & Hsg & Hent & Hs0) | (Hex & Hsg & start & Hent & Hst & Hstart & Hok)]].
+  - rewrite B. cbn [lent0 le_state].
+    exists (set_ent st (ch_f c1) (mkLent LeLoading false 0 (ch_key c1) (-1) 0)), (-1).
+    split; [reflexivity|].
+    destruct (written_head c1 w1 Hc1 Hw1) as (w0 & r & _ & Hw0 & Hc0).
+    assert (Hc0p : (ch_c0 c1 <? p) = false) by (specialize (A w0 Hw0); rewrite Hc0; lia).
+    rewrite Hc0p, (ssum_zero c1 p A). split; [cbn [set_ent r_ent]; apply upd_eq|].
+    split; [intros f' Hf'; cbn [set_ent r_ent]; apply upd_neq, Hf'|]. split; [reflexivity|].
+    split; [discriminate|]. split; [left; reflexivity|].
+    split; intros; [|destruct H as (w & Hw & Hlt)]; try (destruct H as [Hw Hlt]); specialize (A _ Hw); lia.
+  - exfalso. destruct Hex as (w & Hw & Hlt).
+    assert (w = w1) by (apply (single_only c1); auto using written_in). subst w. lia.
+  - rewrite Hent. cbn [le_state la_key]. rewrite key_eqb_refl.
+    exists st, start. split; [reflexivity|]. split; [exact Hent|]. split; [reflexivity|]. split; [reflexivity|].
+    split; [exact Hst|]. split; [right; exact Hstart|]. split; [exact Hok|]. intros _. exact Hsg.
+Qed.
+
+Lemma c0_in : forall c, In c cs -> exists w0, In w0 (ch_ws c) /\ w_slot w0 = ch_c0 c.
+Proof.
+  intros c Hc. pose proof (gc_nonempty c (Hgood c Hc)) as Hne. unfold ch_c0.
+  destruct (ch_ws c) as [|w0 r]; [congruence|]. exists w0. split; [left; reflexivity| reflexivity].
+Qed.
+
+Lemma classic_chain_eq : forall c c1, In c cs -> In c1 cs -> c = c1 \/ c <> c1.
+Proof.
+  intros c c1 Hc Hc1. destruct (Z.eq_dec (ch_f c) (ch_f c1)) as [E | E].
+  - left. apply files_distinct; assumption.
+  - right. intros ->. apply E. reflexivity.
+Qed.
+
+Lemma scn_mono : forall c p w, Scn c p w -> Scn c (p + 1) w.
+Proof. intros c p w [A B]. split; [exact A| lia]. Qed.
+
+(* the other chains, the unowned filenos and the unscanned slots after a step that touched only chain c1 *)
+Lemma load_step_others : forall p st st' c1 w1 (b : bool),
+  LInv p st -> In c1 cs -> In w1 (ch_written c1) -> w_slot w1 = p ->
+  (forall f', f' <> ch_f c1 -> r_ent st' f' = r_ent st f') ->
+  (forall x, x <> p -> (b = true -> x <> ch_c0 c1) -> r_sl st' x = r_sl st x) ->
+  (b = true -> ch_c0 c1 < p) ->
+  (forall c, In c cs -> c <> c1 -> linv c (p + 1) st') /\
+  (forall f, (forall c, In c cs -> ch_f c <> f) -> r_ent st' f = lent0) /\
+  (forall x, p + 1 <= x -> r_sl st' x = lslot0).
+Proof.
+  intros p st st' c1 w1 b (Hall & Hfree & Hfresh) Hc1 Hw1 Hs1 He Hsl Hb.
+  split; [|split].
+  - intros c Hc Hne. apply (linv_frame c p st st' Hc (Hall c Hc)).
+    + intros w Hw Hs. apply Hne. apply (owner_unique c c1 w w1); auto using written_in. lia.
+    + apply He. intros Hf. apply Hne. apply files_distinct; auto.
+    + intros w Hw. apply Hsl.
+      * intros Hs. apply Hne. apply (owner_unique c c1 w w1); auto using written_in. lia.
+      * intros _ Hs. destruct (c0_in c1 Hc1) as (w0 & Hw0 & Hs0). apply Hne.
+        apply (owner_unique c c1 w w0); auto using written_in. lia.
+  - intros f Hf. rewrite He; [apply Hfree, Hf| intros ->; apply (Hf c1 Hc1); reflexivity].
+  - intros x Hx. rewrite Hsl; [apply Hfresh; lia| lia| intros Hb'; specialize (Hb Hb'); lia].
+Qed.
+
+Lemma load_step_owner_multi : forall p st st' c1 w1 (b : bool) start' mo',
+  LInv p st -> In c1 cs -> In w1 (ch_written c1) -> w_slot w1 = p -> ch_single c1 = false ->
+  (forall f', r_ent st' f' = if f' =? ch_f c1
+        then mkLent LeLoading (ch_c0 c1 <? p + 1) (ssum c1 (p + 1)) (ch_key c1) start' 0 else r_ent st f') ->
+  (forall x, r_sl st' x =
+        if x =? p then mkLslot mo' true false false (h_psz (w_hdr w1)) (h_next (w_hdr w1))
+        else if b && (x =? ch_c0 c1) then x_more (r_sl st x) p else r_sl st x) ->
+  (b = true -> ch_c0 c1 < p) ->
+  ((ch_c0 c1 <? p + 1) = true -> start' = ch_c0 c1) ->
+  (start' = p \/ exists w, Scn c1 p w /\ w_slot w = start') ->
+  (mo' = -1 \/ exists w, Scn c1 p w /\ w_slot w = mo') ->
+  (forall w, Scn c1 p w -> slot_ok st c1 p w) ->
+  LInv (p + 1) st'.
+Proof.
+  intros p st st' c1 w1 b start' mo' HI Hc1 Hw1 Hs1 Hsg He Hsl Hb Hst Hstart Hmo Hok.
+  destruct (load_step_others p st st' c1 w1 b HI Hc1 Hw1 Hs1) as (Ho & Hf & Hx).
+  { intros f' Hf'. rewrite He. assert (f' =? ch_f c1 = false) as -> by lia. reflexivity. }
+  { intros x Hx1 Hx2. rewrite Hsl. assert (x =? p = false) as -> by lia.
+    destruct b; [|reflexivity]. specialize (Hx2 eq_refl). assert (x =? ch_c0 c1 = false) as -> by lia. reflexivity. }
+  { exact Hb. }
+  split; [|split; assumption].
+  intros c Hc. destruct (classic_chain_eq c c1 Hc Hc1) as [-> | Hne]; [|apply Ho; assumption].
+  right; right. split; [exists w1; split; [exact Hw1| lia]|]. split; [exact Hsg|].
+  exists start'. split; [rewrite He, Z.eqb_refl; reflexivity|]. split; [exact Hst|]. split.
+  - destruct Hstart as [-> | (w & Hw & Hws)]; [exists w1; split; [split; [exact Hw1| lia]| exact Hs1]|].
+    exists w. split; [apply scn_mono, Hw| exact Hws].
+  - intros w [Hw Hlt]. unfold slot_ok. rewrite Hsl.
+    destruct (w_slot w =? p) eqn:Ep.
+    + assert (w = w1).
+      { apply (nodup_map_inj _ _ w_slot (ch_written c1)); auto using written_nodup. lia. }
+      subst w. exists mo'. split; [reflexivity|].
+      destruct Hmo as [-> | (w & Hw' & Hws)]; [left; reflexivity| right; exists w; split; [apply scn_mono, Hw'| exact Hws]].
+    + assert (Hscn : Scn c1 p w) by (split; [exact Hw| lia]).
+      destruct (Hok w Hscn) as (mo & Hmo_eq & Hcl).
+      destruct (b && (w_slot w =? ch_c0 c1)) eqn:Eb.
+      * exists p. rewrite Hmo_eq. unfold x_more. cbn [ls_mapped ls_final ls_freed ls_size ls_next]. split; [reflexivity|].
+        right. exists w1. split; [split; [exact Hw1| lia]| exact Hs1].
+      * exists mo. split; [exact Hmo_eq|].
+        destruct Hcl as [-> | (w' & Hw' & Hws)]; [left; reflexivity| right; exists w'; split; [apply scn_mono, Hw'| exact Hws]].
+Qed.
+
+Lemma load_step : forall p st, 0 <= p < N -> LInv p st -> LInv (p + 1) (load_one N P oi d st p).
+Proof.
+  intros p st Hp HI. destruct (dec_owner p) as [(c1 & w1 & Hc1 & Hw1 & Hs1) | Hnone].
+  2:{ rewrite load_one_empty by (apply Himg_0; intros c w Hc Hw; apply (Hnone c w Hc Hw)).
+      destruct HI as (Hall & Hfree & Hfresh). split; [|split].
+      - intros c Hc. apply (linv_frame c p st _ Hc (Hall c Hc)); [intros w Hw; apply (Hnone c w Hc Hw)| reflexivity|].
+        intros w Hw. unfold free_slot. cbn [set_sl r_sl]. apply upd_neq. apply (Hnone c w Hc Hw).
+      - intros f Hf. unfold free_slot. cbn [set_sl r_ent]. apply Hfree, Hf.
+      - intros x Hx. unfold free_slot. cbn [set_sl r_sl]. rewrite upd_neq by lia. apply Hfresh. lia. }
+  rewrite (load_one_owned st p c1 w1 Hc1 Hw1 Hs1).
+  destruct (owner_pre p st c1 w1 HI Hc1 Hw1 Hs1) as (st0 & start & Heq & Hent & Hof & Hsl0 & Hst & Hstart & Hok & Hsgl).
+  rewrite Heq. clear Heq.
+  pose proof (Hgood c1 Hc1) as G.
+  destruct (gc_hdr c1 G w1 (written_in c1 w1 Hw1)) as (Hk & Hfirst & Hver & Hpsz & Hslot & Hnext).
+  assert (Hfreshp : r_sl st p = lslot0) by (destruct HI as (_ & _ & HIx); apply HIx; lia).
+  assert (Himg : d p = cell_of w1) by (rewrite <- Hs1; apply (Himg_w c1 w1 Hc1 Hw1)).
+  destruct (written_head c1 w1 Hc1 Hw1) as (w0 & r & Hws & Hw0 & Hc0).
+  destruct (ch_single c1) eqn:Esg.
+  - (* a one-slot entry *)
+    assert (w0 = w1) by (apply (single_only c1); auto using written_in). subst w0.
+    assert (r = []) by (unfold ch_single in Esg; rewrite Hws in Esg; destruct r; [reflexivity| discriminate Esg]). subst r.
+    destruct (gc_esz c1 G w1 [] Hws) as (Hesz & HT). specialize (HT eq_refl).
+    pose proof (gc_linked c1 G) as Hl. rewrite Hws in Hl. cbn [linked_to] in Hl. destruct Hl as [Hnx _].
+    assert (Hnoscan : forall w, In w (ch_written c1) -> p <= w_slot w).
+    { intros w Hw. assert (w = w1) by (apply (single_only c1); auto using written_in). subst w. lia. }
+    assert (Hstart1 : start = -1).
+    { destruct Hstart as [-> | (w & Hw & _)]; [reflexivity|]. assert (true = false) by (apply Hsgl; exists w; exact Hw). discriminate. }
+    assert (Hc0p : (ch_c0 c1 <? p) = false) by lia.
+    rewrite Hc0p, (ssum_zero c1 p Hnoscan), Hstart1 in Hent.
+    destruct (add_slot_single N P oi d p (ch_f c1) p w1 st0 (ch_key c1)) as (E1 & S1); auto; try lia.
+    { rewrite Hsl0. exact Hfreshp. }
+    { apply (gc_meta c1 G w1 [] Hws). }
+    set (st' := add_slot N P oi d p (ch_f c1) p (w_hdr w1) st0) in *.
+    destruct (load_step_others p st st' c1 w1 false HI Hc1 Hw1 Hs1) as (Ho & Hf & Hx).
+    { intros f' Hf'. rewrite E1. assert (f' =? ch_f c1 = false) as -> by lia. apply Hof, Hf'. }
+    { intros x Hx1 _. rewrite S1. assert (x =? p = false) as -> by lia. apply Hsl0. }
+    { discriminate. }
+    split; [|split; assumption].
+    intros c Hc. destruct (classic_chain_eq c c1 Hc Hc1) as [-> | Hne]; [|apply Ho; assumption].
+    right; left. split; [exists w1; split; [exact Hw1| lia]|]. split; [exact Esg|].
+    split; [rewrite E1, Z.eqb_refl, HT, Hc0, Hs1; reflexivity|].
+    rewrite S1, Hc0, Hs1, Z.eqb_refl, HT. reflexivity.
+  - (* a slot of a multi-slot entry *)
+    assert (Hr : r <> []) by (intros ->; unfold ch_single in Esg; rewrite Hws in Esg; discriminate Esg).
+    assert (Hstep : ssum c1 (p + 1) = ssum c1 p + h_psz (w_hdr w1)) by (apply ssum_step; auto using written_nodup).
+    destruct (Z.eq_dec (ch_c0 c1) p) as [Eino | Eino].
+    + (* the inode *)
+      assert (w0 = w1).
+      { apply (nodup_map_inj _ _ w_slot (ch_ws c1)); auto using written_in; [apply (gc_nodup c1 G)| lia]. }
+      subst w0.
+      destruct (gc_esz c1 G w1 r Hws) as (Hesz & _). destruct r as [|w2 r]; [congruence|].
+      assert (Hc0p : (ch_c0 c1 <? p) = false) by lia. rewrite Hc0p in Hent.
+      destruct (add_slot_inode_multi N P oi d p (ch_f c1) p w1 st0 _ Hent) as (E1 & S1); auto.
+      { rewrite Hfirst. exact Eino. }
+      { apply (gc_meta c1 G w1 _ Hws). }
+      cbn [le_state le_size la_key la_start] in E1, S1.
+      apply (load_step_owner_multi p st _ c1 w1 false p start HI Hc1 Hw1 Hs1 Esg).
+      * intros f'. rewrite E1. destruct (f' =? ch_f c1) eqn:Ef; [|apply Hof; lia].
+        assert (ch_c0 c1 <? p + 1 = true) as -> by lia. rewrite Hstep. reflexivity.
+      * intros x. rewrite S1, !Hsl0, Hfreshp. cbn [andb lslot0 ls_final ls_freed]. reflexivity.
+      * discriminate.
+      * intros _. lia.
+      * left. reflexivity.
+      * exact Hstart.
+      * exact Hok.
+    + (* not the inode *)
+      assert (Hfne : h_first (w_hdr w1) <> p) by (rewrite Hfirst; exact Eino).
+      destruct (ch_c0 c1 <? p) eqn:Ea.
+      * specialize (Hst eq_refl). subst start.
+        destruct (add_slot_noninode_anch N P oi d p (ch_f c1) p (w_hdr w1) st0 _ Hent) as (E1 & S1); auto.
+        cbn [le_state le_size la_key la_start] in E1, S1.
+        assert (Hscn0 : Scn c1 p w0) by (split; [exact Hw0| lia]).
+        destruct (Hok w0 Hscn0) as (mo & Hmo_eq & Hcl). rewrite <- Hc0 in Hmo_eq.
+        apply (load_step_owner_multi p st _ c1 w1 true (ch_c0 c1) mo HI Hc1 Hw1 Hs1 Esg).
+        -- intros f'. rewrite E1. destruct (f' =? ch_f c1) eqn:Ef; [|apply Hof; lia].
+           assert (ch_c0 c1 <? p + 1 = true) as -> by lia. rewrite Hstep. reflexivity.
+        -- intros x. rewrite S1, !Hsl0, Hfreshp, Hmo_eq. cbn [andb lslot0 ls_final ls_freed ls_more]. reflexivity.
+        -- intros _. lia.
+        -- intros _. reflexivity.
+        -- right. exists w0. split; [exact Hscn0| lia].
+        -- exact Hcl.
+        -- exact Hok.
+      * destruct (add_slot_noninode_unanch N P oi d p (ch_f c1) p (w_hdr w1) st0 _ Hent) as (E1 & S1); auto.
+        cbn [le_state le_size la_key la_start] in E1, S1.
+        apply (load_step_owner_multi p st _ c1 w1 false p start HI Hc1 Hw1 Hs1 Esg).
+        -- intros f'. rewrite E1. destruct (f' =? ch_f c1) eqn:Ef; [|apply Hof; lia].
+           assert (ch_c0 c1 <? p + 1 = false) as -> by lia. rewrite Hstep. reflexivity.
+        -- intros x. rewrite S1, !Hsl0, Hfreshp. cbn [andb lslot0 ls_final ls_freed]. reflexivity.
+        -- discriminate.
+        -- intros Hc. lia.
+        -- left. reflexivity.
+        -- exact Hstart.
+        -- exact Hok.
+Qed.
+
+Lemma LInv_init : LInv 0 rst0.
+Proof.
+  split; [|split; reflexivity]. intros c Hc. left. split; [|reflexivity].
+  intros w Hw. apply (gc_hdr c (Hgood c Hc) w (written_in c w Hw)).
+Qed.
+
+Lemma load_fold : forall n a st, 0 <= a -> a + Z.of_nat n <= N -> LInv a st ->
+  LInv (a + Z.of_nat n) (fold_left (load_one N P oi d) (zseq a n) st).
+Proof.
+  induction n as [|n IH]; intros a st Ha Hn HI.
+  - cbn [zseq fold_left]. replace (a + Z.of_nat 0) with a by lia. exact HI.
+  - cbn [zseq fold_left]. replace (a + Z.of_nat (S n)) with ((a + 1) + Z.of_nat n) by lia.
+    apply IH; [lia| lia|]. apply load_step; [lia| exact HI].
+Qed.
+
+Lemma loaded : LInv N (fold_left (load_one N P oi d) (zseq 0 (Z.to_nat N)) rst0).
+Proof.
+  pose proof (load_fold (Z.to_nat N) 0 rst0) as H. rewrite Z2Nat.id in H by lia. apply H; [lia| lia| apply LInv_init].
+Qed.
+
+(* ---- 4.7 the chain walk of finalizeOrThrow ---- *)
+Definition mark_final (l : list wr) (st : rst) : rst :=
+  fold_left (fun s w => set_sl s (w_slot w) (x_final (r_sl s (w_slot w)))) l st.
+
+Lemma mark_final_ent : forall l st f, r_ent (mark_final l st) f = r_ent st f.
+Proof. induction l as [|w l IH]; intros st f; [reflexivity|]. cbn [mark_final fold_left]. fold (mark_final l). rewrite IH. reflexivity. Qed.
+
+Lemma mark_final_nofuel : forall l st, r_nofuel (mark_final l st) = r_nofuel st.
+Proof. induction l as [|w l IH]; intros st; [reflexivity|]. cbn [mark_final fold_left]. fold (mark_final l). rewrite IH. reflexivity. Qed.
+
+Lemma mark_final_out : forall l st x, ~ In x (map w_slot l) -> r_sl (mark_final l st) x = r_sl st x.
+Proof.
+  induction l as [|w l IH]; intros st x Hx; [reflexivity|]. cbn [mark_final fold_left]. fold (mark_final l).
+  cbn [map In] in Hx. rewrite IH by tauto. cbn [set_sl r_sl]. apply upd_neq. intros E. apply Hx. left. congruence.
+Qed.
+
+Lemma mark_final_in : forall l st w, NoDup (map w_slot l) -> In w l ->
+  r_sl (mark_final l st) (w_slot w) = x_final (r_sl st (w_slot w)).
+Proof.
+  induction l as [|a l IH]; intros st w Hnd Hw; [destruct Hw|]. cbn [mark_final fold_left]. fold (mark_final l).
+  cbn [map] in Hnd. inversion Hnd as [|? ? Hn Hd]; subst. destruct Hw as [<- | Hw].
+  - rewrite mark_final_out by exact Hn. cbn [set_sl r_sl]. apply upd_eq.
+  - rewrite IH by assumption. cbn [set_sl r_sl]. rewrite upd_neq; [reflexivity|].
+    intros E. apply Hn. rewrite <- E. apply in_map, Hw.
+Qed.
+
+Definition head_slot (l : list wr) (e : Z) : Z := match l with w :: _ => w_slot w | [] => e end.
+
+Lemma fin_walk_chain : forall l e fuel pos lesize sum st,
+  linked_to l e -> (length l <= fuel)%nat -> NoDup (map w_slot l) ->
+  (forall w, In w l -> 0 <= w_slot w < N /\ w_slot w <= pos /\ 0 < h_psz (w_hdr w) /\
+      exists mo, r_sl st (w_slot w) = mkLslot mo true false false (h_psz (w_hdr w)) (h_next (w_hdr w))) ->
+  sum + psz_sum l = lesize ->
+  fin_walk N fuel pos lesize (head_slot l e) sum st = WDone e lesize (mark_final l st).
+Proof.
+  induction l as [|w l IH]; intros e fuel pos lesize sum st Hl Hf Hnd Hok Hsum.
+  - cbn [psz_sum fold_right] in Hsum. cbn [head_slot mark_final fold_left]. rewrite fin_walk_done; [f_equal; lia|].
+    assert (sum <? lesize = false) as -> by lia. apply orb_true_r.
+  - destruct fuel as [|fuel]; [cbn [length] in Hf; lia|]. cbn [head_slot DiskcrashModel.fin_walk].
+    destruct (Hok w (or_introl eq_refl)) as (Hr & Hp & Hps & mo & Hsl).
+    cbn [psz_sum fold_right] in Hsum. fold (psz_sum l) in Hsum.
+    assert (Hnn : 0 <= psz_sum l).
+    { clear - Hok. induction l as [|a l IHl]; [cbn; lia|]. cbn [psz_sum fold_right]. fold (psz_sum l).
+      assert (0 <= psz_sum l) by (apply IHl; intros w' [<- | Hw']; apply Hok; [left; reflexivity| right; right; exact Hw']).
+      destruct (Hok a (or_intror (or_introl eq_refl))) as (_ & _ & Ha & _). lia. }
+    assert (w_slot w <? 0 = false) as -> by lia. assert (sum <? lesize = true) as -> by lia. cbn [negb orb].
+    assert (w_slot w <? N = true) as -> by lia. assert (w_slot w <=? pos = true) as -> by lia. cbn [andb negb].
+    rewrite Hsl. cbn [ls_final ls_mapped ls_freed ls_size ls_next negb].
+    assert (h_psz (w_hdr w) <=? 0 = false) as -> by lia.
+    cbn [linked_to] in Hl. destruct Hl as [Hnx Hl]. cbn [map] in Hnd. inversion Hnd as [|? ? Hn Hd]; subst.
+    assert (Hhead : h_next (w_hdr w) = head_slot l e) by (destruct l; exact Hnx).
+    cbn [mark_final fold_left]. fold (mark_final l). rewrite Hsl. rewrite Hhead at 1.
+    apply IH; auto; [cbn [length] in Hf; lia| | lia].
+    intros w' Hw'. destruct (Hok w' (or_intror Hw')) as (A & B & C & mo' & D). repeat split; try lia.
+    exists mo'. cbn [set_sl r_sl]. rewrite upd_neq; [exact D|]. intros E. apply Hn. rewrite <- E. apply in_map, Hw'.
+Qed.
+
+(* ---- 4.8 freeBadEntry touches only the entry and the slots on its [more] list ---- *)
+Lemma free_more_frame : forall (S : Z -> Prop) fuel i st,
+  (i = -1 \/ S i) ->
+  (forall x, S x -> 0 <= x /\ (ls_more (r_sl st x) = -1 \/ S (ls_more (r_sl st x)))) ->
+  (forall f, r_ent (free_more fuel i st) f = r_ent st f) /\
+  (forall x, ~ S x -> r_sl (free_more fuel i st) x = r_sl st x).
+Proof.
+  intros S. induction fuel as [|fuel IH]; intros i st Hi Hcl.
+  - cbn [free_more]. destruct (i <? 0); split; intros; reflexivity.
+  - cbn [free_more]. destruct (i <? 0) eqn:Ei; [split; intros; reflexivity|].
+    destruct Hi as [-> | Hi]; [discriminate Ei|].
+    destruct (Hcl i Hi) as (Hi0 & Hmo).
+    destruct (IH (ls_more (r_sl st i)) (free_slot i st)) as (A & B).
+    + exact Hmo.
+    + intros x Hx. destruct (Hcl x Hx) as (Hx0 & Hxm). split; [exact Hx0|].
+      unfold free_slot. cbn [set_sl r_sl]. unfold upd. destruct (x =? i) eqn:E.
+      * apply Z.eqb_eq in E. subst x. cbn [x_freed ls_more]. exact Hxm.
+      * exact Hxm.
+    + split.
+      * intros f. rewrite A. reflexivity.
+      * intros x Hx. rewrite B by exact Hx. unfold free_slot. cbn [set_sl r_sl]. apply upd_neq.
+        intros ->. apply Hx, Hi.
+Qed.
+
+Lemma free_bad_entry_spec : forall (S : Z -> Prop) f st,
+  (la_start (r_ent st f) = -1 \/ S (la_start (r_ent st f))) ->
+  (forall x, S x -> 0 <= x /\ (ls_more (r_sl st x) = -1 \/ S (ls_more (r_sl st x)))) ->
+  le_state (r_ent (free_bad_entry N f st) f) = LeCorrupted /\
+  (forall f', f' <> f -> r_ent (free_bad_entry N f st) f' = r_ent st f') /\
+  (forall x, ~ S x -> r_sl (free_bad_entry N f st) x = r_sl st x).
+Proof.
+  intros S f st Hs Hcl. unfold free_bad_entry.
+  set (st1 := set_ent st f (e_state (r_ent st f) LeCorrupted)).
+  destruct (free_more_frame S (fuelN N) (la_start (r_ent st f)) st1 Hs) as (A & B).
+  { intros x Hx. apply Hcl, Hx. }
+  split; [|split].
+  - cbn [set_ent r_ent]. rewrite upd_eq, A. unfold st1. cbn [set_ent r_ent]. rewrite upd_eq. reflexivity.
+  - intros f' Hf'. cbn [set_ent r_ent]. rewrite upd_neq by exact Hf'. rewrite A. unfold st1. cbn [set_ent r_ent].
+    apply upd_neq, Hf'.
+  - intros x Hx. cbn [set_ent r_sl]. rewrite B by exact Hx. reflexivity.
+Qed.
+
+(* ---- 4.9 the validation phase ---- *)
+Definition slot_done (st : rst) (w : wr) : Prop :=
+  exists mo, r_sl st (w_slot w) = mkLslot mo true true false (h_psz (w_hdr w)) (h_next (w_hdr w)).
+
+Definition vinv (c : chain) (g : Z) (st : rst) : Prop :=
+  (ch_written c = [] /\ r_ent st (ch_f c) = lent0) \/
+  (ch_written c <> [] /\ ch_single c = true /\
+     r_ent st (ch_f c) = mkLent LeLoaded true (ch_T c) (ch_key c) (ch_c0 c) (ch_T c) /\
+     r_sl st (ch_c0 c) = mkLslot (-1) true true false (ch_T c) (-1)) \/
+  (ch_written c <> [] /\ ch_single c = false /\ g <= ch_f c /\
+     r_ent st (ch_f c) = mkLent LeLoading true (psz_sum (ch_written c)) (ch_key c) (ch_c0 c) 0 /\
+     forall w, In w (ch_written c) -> slot_ok st c N w) \/
+  (ch_written c <> [] /\ ch_single c = false /\ ch_f c < g /\ ch_complete c /\
+     r_ent st (ch_f c) = mkLent LeLoaded true (psz_sum (ch_ws c)) (ch_key c) (ch_c0 c) (psz_sum (ch_ws c)) /\
+     forall w, In w (ch_ws c) -> slot_done st w) \/
+  (ch_written c <> [] /\ ch_single c = false /\ ch_f c < g /\ ~ ch_complete c /\
+     le_state (r_ent st (ch_f c)) = LeCorrupted).
+
+Definition VInv (g : Z) (st : rst) : Prop :=
+  (forall c, In c cs -> vinv c g st) /\
+  (forall f, (forall c, In c cs -> ch_f c <> f) -> r_ent st f = lent0).
+
+Lemma ch_f_range : forall c, 0 <= ch_f c < N.
+Proof. intros c. unfold ch_f, fileno_of. apply Z.mod_pos_bound. exact HN. Qed.
+
+Lemma ssum_all : forall c, In c cs -> ssum c N = psz_sum (ch_written c).
+Proof.
+  intros c Hc. unfold ssum. f_equal.
+  assert (H : forall w, In w (ch_written c) -> w_slot w <? N = true).
+  { intros w Hw. destruct (gc_hdr c (Hgood c Hc) w (written_in c w Hw)) as (_ & _ & _ & _ & Hr & _). lia. }
+  induction (ch_written c) as [|w l IH]; [reflexivity|]. cbn [filter]. rewrite (H w (or_introl eq_refl)).
+  f_equal. apply IH. intros w' Hw'. apply H. right. exact Hw'.
+Qed.
+
+Lemma VInv_of_LInv : forall st, LInv N st -> VInv 0 st.
+Proof.
+  intros st (Hall & Hfree & _). split; [|exact Hfree].
+  intros c Hc. pose proof (ch_f_range c) as Hfr.
+  assert (Hrange : forall w, In w (ch_written c) -> w_slot w < N).
+  { intros w Hw. apply (gc_hdr c (Hgood c Hc) w (written_in c w Hw)). }
+  destruct (Hall c Hc) as [[A B] | [(Hex & Hsg & Hent & Hs0) | (Hex & Hsg & start & Hent & Hst & Hstart & Hok)]].
+  - left. split; [|exact B]. destruct (ch_written c) as [|w l]; [reflexivity|].
+    specialize (A w (or_introl eq_refl)). specialize (Hrange w (or_introl eq_refl)). lia.
+  - right; left. destruct Hex as (w & Hw & _). split; [intros E; rewrite E in Hw; destruct Hw|]. auto.
+  - right; right; left. destruct Hex as (w & Hw & _).
+    split; [intros E; rewrite E in Hw; destruct Hw|]. split; [exact Hsg|]. split; [lia|].
+    destruct (written_head c w Hc Hw) as (w0 & r & _ & Hw0 & Hc0).
+    assert (Hc0N : (ch_c0 c <? N) = true) by (specialize (Hrange w0 Hw0); lia).
+    rewrite Hc0N, (ssum_all c Hc) in Hent. rewrite (Hst Hc0N) in Hent. split; [exact Hent|].
+    intros w' Hw'. apply Hok. split; [exact Hw'| apply Hrange, Hw'].
+Qed.
+
+Lemma vinv_frame : forall c g st st', In c cs -> vinv c g st -> ch_f c <> g ->
+  r_ent st' (ch_f c) = r_ent st (ch_f c) ->
+  (forall w, In w (ch_ws c) -> r_sl st' (w_slot w) = r_sl st (w_slot w)) ->
+  vinv c (g + 1) st'.
+Proof.
+  intros c g st st' Hc Hv Hne He Hsl.
+  destruct Hv as [(A & B) | [(A & Hsg & B & C) | [(A & Hsg & Hg & B & C) | [(A & Hsg & Hg & Hco & B & C) | (A & Hsg & Hg & Hco & B)]]]].
+  - left. split; [exact A| now rewrite He].
+  - right; left. split; [exact A|]. split; [exact Hsg|]. split; [now rewrite He|].
+    destruct (c0_in c Hc) as (w0 & Hw0 & Hs0). rewrite <- Hs0, (Hsl w0 Hw0), Hs0. exact C.
+  - right; right; left. split; [exact A|]. split; [exact Hsg|]. split; [lia|]. split; [now rewrite He|].
+    intros w Hw. destruct (C w Hw) as (mo & Hmo & Hcl). exists mo. rewrite (Hsl w (written_in c w Hw)). auto.
+  - right; right; right; left. split; [exact A|]. split; [exact Hsg|]. split; [lia|]. split; [exact Hco|].
+    split; [now rewrite He|]. intros w Hw. destruct (C w Hw) as (mo & Hmo). exists mo. rewrite (Hsl w Hw). exact Hmo.
+  - right; right; right; right. split; [exact A|]. split; [exact Hsg|]. split; [lia|]. split; [exact Hco|]. now rewrite He.
+Qed.
+
+Lemma psz_sum_pos : forall c l, In c cs -> (forall w, In w l -> In w (ch_ws c)) -> l <> [] -> 0 < psz_sum l.
+Proof.
+  intros c l Hc Hin Hne. destruct l as [|w l]; [congruence|]. cbn [psz_sum fold_right]. fold (psz_sum l).
+  assert (0 <= psz_sum l).
+  { clear Hne. induction l as [|a l IH]; [cbn; lia|]. cbn [psz_sum fold_right]. fold (psz_sum l).
+    assert (0 <= psz_sum l) by (apply IH; intros w' [<- | Hw']; apply Hin; [left; reflexivity| right; right; exact Hw']).
+    destruct (gc_hdr c (Hgood c Hc) a (Hin a (or_intror (or_introl eq_refl)))) as (_ & _ & _ & Hp & _). lia. }
+  destruct (gc_hdr c (Hgood c Hc) w (Hin w (or_introl eq_refl))) as (_ & _ & _ & Hp & _). lia.
+Qed.
+
+Lemma chain_length : forall c, In c cs -> (length (ch_ws c) <= Z.to_nat N)%nat.
+Proof.
+  intros c Hc. rewrite <- (map_length w_slot), <- (zseq_length (Z.to_nat N) 0).
+  apply NoDup_incl_length; [apply (gc_nodup c (Hgood c Hc))|].
+  intros x Hx. apply in_map_iff in Hx. destruct Hx as (w & <- & Hw). apply zseq_in.
+  destruct (gc_hdr c (Hgood c Hc) w Hw) as (_ & _ & _ & _ & Hr & _). lia.
+Qed.
+
+Lemma finalize_chain : forall c st, In c cs -> ch_written c <> [] -> ch_single c = false ->
+  r_ent st (ch_f c) = mkLent LeLoading true (psz_sum (ch_written c)) (ch_key c) (ch_c0 c) 0 ->
+  (forall w, In w (ch_written c) -> slot_ok st c N w) ->
+  let st' := finalize_or_free N N (ch_f c) st in
+  (ch_complete c ->
+     r_ent st' (ch_f c) = mkLent LeLoaded true (psz_sum (ch_ws c)) (ch_key c) (ch_c0 c) (psz_sum (ch_ws c)) /\
+     forall w, In w (ch_ws c) -> slot_done st' w) /\
+  (~ ch_complete c -> le_state (r_ent st' (ch_f c)) = LeCorrupted) /\
+  (forall f', f' <> ch_f c -> r_ent st' f' = r_ent st f') /\
+  (forall x, (forall w, In w (ch_written c) -> w_slot w <> x) -> r_sl st' x = r_sl st x).
+Proof.
+  intros c st Hc Hne Hsg Hent Hok st'.
+  pose proof (Hgood c Hc) as G.
+  assert (HW : forall w, In w (ch_written c) -> In w (ch_ws c)) by (intros; apply written_in; assumption).
+  assert (Hsize : 0 < psz_sum (ch_written c)) by (apply (psz_sum_pos c); auto).
+  destruct (ch_written c) as [|w0 W'] eqn:EW; [congruence|].
+  destruct (written_head c w0 Hc) as (w0' & r & Hws & _ & Hc0); [rewrite EW; left; reflexivity|].
+  assert (w0' = w0).
+  { unfold ch_written in EW. rewrite Hws in EW. destruct (ch_m c); [discriminate EW|]. cbn [firstn] in EW. congruence. }
+  subst w0'.
+  set (W := w0 :: W') in *.
+  assert (HndW : NoDup (map w_slot W)) by (rewrite <- EW; apply written_nodup, Hc).
+  assert (Hlen : (length W <= fuelN N)%nat).
+  { unfold fuelN. pose proof (chain_length c Hc). rewrite <- EW. unfold ch_written. rewrite firstn_length. lia. }
+  assert (HokW : forall w, In w W -> 0 <= w_slot w < N /\ w_slot w <= N /\ 0 < h_psz (w_hdr w) /\
+      exists mo, r_sl st (w_slot w) = mkLslot mo true false false (h_psz (w_hdr w)) (h_next (w_hdr w))).
+  { intros w Hw. destruct (gc_hdr c G w (HW w Hw)) as (_ & _ & _ & Hp & Hr & _).
+    destruct (Hok w Hw) as (mo & Hmo & _). repeat split; try lia. exists mo. exact Hmo. }
+  assert (Hwalk : forall e, linked_to W e ->
+     fin_walk N (fuelN N) N (psz_sum W) (ch_c0 c) 0 st = WDone e (psz_sum W) (mark_final W st)).
+  { intros e He. rewrite Hc0. change (w_slot w0) with (head_slot W e). apply fin_walk_chain; auto. }
+  subst st'. unfold finalize_or_free. rewrite Hent. cbn [le_size la_start].
+  assert (psz_sum W <=? 0 = false) as -> by lia.
+  destruct (Nat.eq_dec (ch_m c) (length (ch_ws c))) as [Hco | Hco].
+  - (* complete *)
+    assert (HWall : W = ch_ws c) by (rewrite <- EW; unfold ch_written; rewrite Hco; apply firstn_all).
+    rewrite (Hwalk (-1)) by (rewrite HWall; apply (gc_linked c G)).
+    change (-1 <? 0) with true. rewrite Z.eqb_refl. cbn [andb].
+    rewrite mark_final_ent, Hent. cbn [la_swapsz e_swapsz e_state le_anch le_size la_key la_start Z.eqb].
+    split; [|split; [|split]].
+    + intros _. rewrite <- HWall. split; [cbn [set_ent r_ent]; apply upd_eq|].
+      intros w Hw. unfold slot_done. cbn [set_ent r_sl]. rewrite mark_final_in by assumption.
+      destruct (HokW w Hw) as (_ & _ & _ & mo & Hmo). rewrite Hmo. exists mo. reflexivity.
+    + intros Hn. exfalso. apply Hn. exact Hco.
+    + intros f' Hf'. cbn [set_ent r_ent]. rewrite upd_neq by exact Hf'. apply mark_final_ent.
+    + intros x Hx. cbn [set_ent r_sl]. apply mark_final_out. intros Hin. apply in_map_iff in Hin.
+      destruct Hin as (w & Hs & Hw). apply (Hx w Hw Hs).
+  - (* cut short by the crash *)
+    pose proof (gc_m c G) as Hm.
+    assert (Hlt : (ch_m c < length (ch_ws c))%nat) by lia.
+    pose proof (linked_firstn (ch_ws c) (-1) (ch_m c) w0 (gc_linked c G) Hlt) as Hl. fold (ch_written c) in Hl. rewrite EW in Hl.
+    set (e := w_slot (nth (ch_m c) (ch_ws c) w0)) in *.
+    assert (He0 : 0 <= e).
+    { destruct (gc_hdr c G (nth (ch_m c) (ch_ws c) w0)) as (_ & _ & _ & _ & Hr & _); [apply nth_In; exact Hlt| unfold e; lia]. }
+    rewrite (Hwalk e Hl). assert (e <? 0 = false) as -> by lia. cbn [andb].
+    set (S := fun x => exists w, In w W /\ w_slot w = x).
+    destruct (free_bad_entry_spec S (ch_f c) (mark_final W st)) as (A & B & C).
+    { right. rewrite mark_final_ent, Hent. cbn [la_start]. exists w0. split; [left; reflexivity| symmetry; exact Hc0]. }
+    { intros x (w & Hw & <-). destruct (HokW w Hw) as (Hr & _). split; [lia|].
+      rewrite mark_final_in by assumption. destruct (Hok w Hw) as (mo & Hmo & Hcl). rewrite Hmo. cbn [x_final ls_more].
+      destruct Hcl as [-> | (w' & (Hw' & _) & Hs')]; [left; reflexivity| right; exists w'; split; [rewrite EW in Hw'; exact Hw'| exact Hs']]. }
+    split; [|split; [|split]].
+    + intros Hn. exfalso. apply Hco. exact Hn.
+    + intros _. exact A.
+    + intros f' Hf'. rewrite B by exact Hf'. apply mark_final_ent.
+    + intros x Hx. rewrite C; [apply mark_final_out|].
+      * intros Hin. apply in_map_iff in Hin. destruct Hin as (w & Hs & Hw). apply (Hx w Hw Hs).
+      * intros (w & Hw & Hs). apply (Hx w Hw Hs).
+Qed.
+
+Lemma dec_file : forall g, (exists c, In c cs /\ ch_f c = g) \/ (forall c, In c cs -> ch_f c <> g).
+Proof.
+  intros g. destruct (existsb (fun c => ch_f c =? g) cs) eqn:E.
+  - left. apply existsb_exists in E. destruct E as (c & Hc & E). exists c. split; [exact Hc| lia].
+  - right. intros c Hc Hf. assert (existsb (fun c => ch_f c =? g) cs = true); [|congruence].
+    apply existsb_exists. exists c. split; [exact Hc| lia].
+Qed.
+
+Lemma validate_step : forall g st, 0 <= g < N -> VInv g st -> VInv (g + 1) (validate_one N st g).
+Proof.
+  intros g st Hg (Hall & Hfree).
+  assert (Hsame : validate_one N st g = st -> (forall c, In c cs -> ch_f c = g ->
+            (ch_written c = [] \/ ch_single c = true)) -> VInv (g + 1) (validate_one N st g)).
+  { intros Heq Hc1. rewrite Heq. split; [|exact Hfree]. intros c Hc.
+    destruct (Z.eq_dec (ch_f c) g) as [E | E].
+    - specialize (Hall c Hc).
+      destruct Hall as [(A & B) | [(A & Hsg & B & C) | [(A & Hsg & _) | [(A & Hsg & _) | (A & Hsg & _)]]]];
+        try (destruct (Hc1 c Hc E); congruence).
+      + left. auto.
+      + right; left. auto.
+    - apply (vinv_frame c g st st Hc (Hall c Hc) E); reflexivity. }
+  destruct (dec_file g) as [(c1 & Hc1 & Hf1) | Hnone].
+  2:{ apply Hsame.
+      - unfold validate_one. rewrite (Hfree g Hnone). reflexivity.
+      - intros c Hc Hf. exfalso. apply (Hnone c Hc Hf). }
+  destruct (Hall c1 Hc1) as [(A & B) | [(A & Hsg & B & C) | [(A & Hsg & Hge & B & C) | [(A & Hsg & Hlt & _) | (A & Hsg & Hlt & _)]]]]; try lia.
+  - apply Hsame.
+    + unfold validate_one. rewrite <- Hf1, B. reflexivity.
+    + intros c Hc Hf. assert (c = c1) by (apply files_distinct; auto; lia). subst c. left. exact A.
+  - apply Hsame.
+    + unfold validate_one. rewrite <- Hf1, B. reflexivity.
+    + intros c Hc Hf. assert (c = c1) by (apply files_distinct; auto; lia). subst c. right. exact Hsg.
+  - assert (Hv : validate_one N st g = finalize_or_free N N (ch_f c1) st).
+    { unfold validate_one. rewrite <- Hf1, B. reflexivity. }
+    rewrite Hv. destruct (finalize_chain c1 st Hc1 A Hsg B C) as (Fco & Finc & Fent & Fsl).
+    split.
+    + intros c Hc. destruct (classic_chain_eq c c1 Hc Hc1) as [-> | Hne].
+      * destruct (Nat.eq_dec (ch_m c1) (length (ch_ws c1))) as [Hco | Hco].
+        -- right; right; right; left. destruct (Fco Hco) as (F1 & F2). repeat split; auto; lia.
+        -- right; right; right; right. repeat split; auto; lia.
+      * assert (Hfne : ch_f c <> g) by (intros E; apply Hne; apply files_distinct; auto; lia).
+        apply (vinv_frame c g st _ Hc (Hall c Hc) Hfne).
+        -- apply Fent. lia.
+        -- intros w Hw. apply Fsl. intros w' Hw' Hs. apply Hne.
+           apply (owner_unique c c1 w w'); auto using written_in.
+    + intros f Hf. rewrite Fent; [apply Hfree, Hf| intros ->; apply (Hf c1 Hc1); reflexivity].
+Qed.
+
+Lemma validate_fold : forall n a st, 0 <= a -> a + Z.of_nat n <= N -> VInv a st ->
+  VInv (a + Z.of_nat n) (fold_left (validate_one N) (zseq a n) st).
+Proof.
+  induction n as [|n IH]; intros a st Ha Hn HI.
+  - cbn [zseq fold_left]. replace (a + Z.of_nat 0) with a by lia. exact HI.
+  - cbn [zseq fold_left]. replace (a + Z.of_nat (S n)) with ((a + 1) + Z.of_nat n) by lia.
+    apply IH; [lia| lia|]. apply validate_step; [lia| exact HI].
+Qed.
+
+Lemma rebuilt : VInv N (rebuild N P oi d).
+Proof.
+  unfold rebuild. pose proof (validate_fold (Z.to_nat N) 0) as H. rewrite Z2Nat.id in H by lia.
+  apply H; [lia| lia|]. apply VInv_of_LInv, loaded.
+Qed.
+
+(* ---- 4.10 hits after recovery ---- *)
+Lemma read_chain_spec : forall l e fuel st,
+  linked_to l e -> (length l <= fuel)%nat ->
+  (forall w, In w l -> 0 <= w_slot w /\ ls_size (r_sl st (w_slot w)) = h_psz (w_hdr w) /\
+       ls_next (r_sl st (w_slot w)) = h_next (w_hdr w) /\ d (w_slot w) = cell_of w /\
+       h_psz (w_hdr w) = Z.of_nat (length (w_data w))) ->
+  read_chain d fuel st (head_slot l e) = concat (map w_data l) ++ read_chain d (fuel - length l) st e.
+Proof.
+  induction l as [|w l IH]; intros e fuel st Hl Hf Hok.
+  - cbn [head_slot map concat length app]. rewrite Nat.sub_0_r. reflexivity.
+  - destruct fuel as [|fuel]; [cbn [length] in Hf; lia|].
+    destruct (Hok w (or_introl eq_refl)) as (H0 & Hsz & Hnx & Hd & Hps).
+    cbn [head_slot read_chain]. assert (w_slot w <? 0 = false) as -> by lia.
+    rewrite Hsz, Hnx, Hd, Hps. cbn [cell_of c_area]. rewrite read_area_exact.
+    cbn [linked_to] in Hl. destruct Hl as [Hn Hl].
+    assert (Hhead : h_next (w_hdr w) = head_slot l e) by (destruct l; exact Hn).
+    rewrite Hhead, (IH e fuel st Hl); [| cbn [length] in Hf; lia| intros w' Hw'; apply Hok; right; exact Hw'].
+    cbn [map concat length Nat.sub]. rewrite app_assoc. reflexivity.
+Qed.
+
+Lemma read_chain_end : forall fuel st, read_chain d fuel st (-1) = [].
+Proof. intros [|fuel] st; reflexivity. Qed.
+
+(* what a hit on a complete chain serves: the swap-in checks applied to the concatenated payloads *)
+Definition serve (c : chain) : option (list atom) :=
+  let content := firstn (Z.to_nat (psz_sum (ch_ws c))) (concat (map w_data (ch_ws c))) in
+  match parse_meta oi (firstn (Z.to_nat dc_page_size) content) with
+  | Some info => if key_eqb (o_key info) (ch_key c) then Some (firstn (Z.to_nat (o_len info)) content) else None
+  | None => None
+  end.
+
+Lemma hit_complete : forall c, In c cs -> ch_complete c ->
+  hit N oi d (rebuild N P oi d) (ch_key c) = serve c.
+Proof.
+  intros c Hc Hco. pose proof (Hgood c Hc) as G. destruct rebuilt as (Hall & _).
+  assert (Hwr : ch_written c = ch_ws c) by (unfold ch_written; rewrite Hco; apply firstn_all).
+  assert (Hread : forall st,
+     (forall w, In w (ch_ws c) -> ls_size (r_sl st (w_slot w)) = h_psz (w_hdr w) /\
+                                  ls_next (r_sl st (w_slot w)) = h_next (w_hdr w)) ->
+     read_chain d (fuelN N) st (ch_c0 c) = concat (map w_data (ch_ws c))).
+  { intros st Hsl. pose proof (gc_nonempty c G) as Hne. unfold ch_c0.
+    destruct (ch_ws c) as [|w0 r] eqn:Ews; [congruence|]. change (w_slot w0) with (head_slot (w0 :: r) (-1)).
+    rewrite <- Ews in *. rewrite read_chain_spec.
+    - rewrite read_chain_end. apply app_nil_r.
+    - apply (gc_linked c G).
+    - unfold fuelN. pose proof (chain_length c Hc). lia.
+    - intros w Hw. destruct (gc_hdr c G w Hw) as (_ & _ & _ & _ & Hr & _). destruct (Hsl w Hw) as (A & B).
+      repeat split; auto; [lia| | apply (gc_data c G w Hw)].
+      apply (Himg_w c w Hc). rewrite Hwr. exact Hw. }
+  unfold hit, serve. fold (ch_f c).
+  destruct (Hall c Hc) as [(A & B) | [(A & Hsg & B & C) | [(A & Hsg & Hge & _) | [(A & Hsg & Hlt & _ & B & C) | (A & Hsg & Hlt & Hnco & _)]]]].
+  - exfalso. rewrite Hwr in A. apply (gc_nonempty c G A).
+  - rewrite B. cbn [le_state la_key la_start la_swapsz]. rewrite key_eqb_refl.
+    unfold ch_single in Hsg. destruct (ch_ws c) as [|w0 [|w1 r]] eqn:Ews; try discriminate Hsg.
+    destruct (gc_esz c G w0 [] Ews) as (_ & HT). specialize (HT eq_refl).
+    assert (Hc0 : ch_c0 c = w_slot w0) by (unfold ch_c0; rewrite Ews; reflexivity).
+    pose proof (gc_linked c G) as Hl. rewrite Ews in Hl. cbn [linked_to] in Hl. destruct Hl as [Hnx _].
+    rewrite Hread.
+    + cbn [psz_sum fold_right]. rewrite HT. replace (ch_T c + 0) with (ch_T c) by lia. reflexivity.
+    + intros w [<- | []]. rewrite <- Hc0, C. cbn [ls_size ls_next]. rewrite HT, Hnx. auto.
+  - pose proof (ch_f_range c). lia.
+  - rewrite B. cbn [le_state la_key la_start la_swapsz]. rewrite key_eqb_refl.
+    rewrite Hread; [reflexivity|]. intros w Hw. destruct (C w Hw) as (mo & Hmo). rewrite Hmo. auto.
+  - exfalso. apply Hnco. exact Hco.
+Qed.
+
+Lemma key_eqb_true : forall a b : key, key_eqb a b = true -> a = b.
+Proof.
+  intros [a0 a1] [b0 b1] H. unfold key_eqb in H. cbn [fst snd] in H. apply andb_prop in H. destruct H as [H0 H1].
+  apply Z.eqb_eq in H0, H1. now subst.
+Qed.
+
+Lemma hit_only : forall k content, hit N oi d (rebuild N P oi d) k = Some content ->
+  exists c, In c cs /\ ch_complete c /\ ch_key c = k.
+Proof.
+  intros k content Hh. destruct rebuilt as (Hall & Hfree). unfold hit in Hh.
+  destruct (dec_file (fileno_of N k)) as [(c & Hc & Hf) | Hnone].
+  2:{ rewrite (Hfree _ Hnone) in Hh. discriminate Hh. }
+  rewrite <- Hf in Hh. pose proof (Hgood c Hc) as G.
+  assert (Hkey : forall e, le_state e = LeLoaded -> la_key e = ch_key c -> r_ent (rebuild N P oi d) (ch_f c) = e -> ch_key c = k).
+  { intros e He Hk Hr. rewrite Hr, He, Hk in Hh. destruct (key_eqb (ch_key c) k) eqn:E; [apply key_eqb_true, E| discriminate Hh]. }
+  destruct (Hall c Hc) as [(A & B) | [(A & Hsg & B & C) | [(A & Hsg & Hge & _) | [(A & Hsg & Hlt & Hco & B & C) | (A & Hsg & Hlt & Hnco & B)]]]].
+  - rewrite B in Hh. discriminate Hh.
+  - exists c. split; [exact Hc|]. split; [|refine (Hkey _ _ _ B); reflexivity].
+    unfold ch_complete. pose proof (gc_m c G) as Hm. unfold ch_single in Hsg.
+    destruct (ch_ws c) as [|w0 [|w1 r]] eqn:Ews; try discriminate Hsg. cbn [length] in *.
+    unfold ch_written in A. rewrite Ews in A. destruct (ch_m c) as [|[|m]]; [exfalso; apply A; reflexivity| reflexivity| lia].
+  - pose proof (ch_f_range c). lia.
+  - exists c. split; [exact Hc|]. split; [exact Hco| refine (Hkey _ _ _ B); reflexivity].
+  - destruct (r_ent (rebuild N P oi d) (ch_f c)) as [es ? ? ? ? ?]. cbn [le_state] in *. subst es. discriminate Hh.
+Qed.
+
+End Recovery.
